@@ -164,6 +164,10 @@ func checkGuardInventory(c *Ctx, r *Run, rule, tableFile string, filter func(fna
 		for _, k := range tab[fname] {
 			conditional := strings.HasPrefix(k, "~")
 			k = strings.TrimPrefix(k, "~")
+			if rule2, elsewhere := decidedElsewhere[fname+"|"+k]; elsewhere {
+				r.Hold(rule, fname+"|"+k, "?", "decided exactly by "+rule2+" (whatever its spelling); not part of the inventory")
+				continue
+			}
 			g, present := m[k]
 			pos, d, okc := "?", "", false
 			if present {
@@ -691,4 +695,11 @@ func loadedRecvField(v ssa.Value) string {
 		return fv.Name()
 	}
 	return ""
+}
+
+// decidedElsewhere: guards whose meaning a dedicated rule decides exactly, for every spelling; the inventory (which can
+// only tell that a spelling changed) does not report them.
+var decidedElsewhere = map[string]string{
+	"internal/bip32.DeriveScalar|>> const != const(uint32)":                         "SPEC-1 hardened-refused",
+	"pkg/math/curve.(*Secp256k1Point).UnmarshalBinary|!= const & != const([]byte)": "DEC-1 prefix-refused / prefix-accepted (evaluation over all 256 prefix bytes)",
 }
